@@ -23,7 +23,7 @@ def claim(pid, text, note='', technique='contract-based deductive verification: 
 claim('C01', "make_converter's dispatch (which converter, with which arguments, in which precedence) and every try_convert under contract are proved: "
       "a conversion returns iff the class acceptance predicate (written from the documented element-wise rules) holds and returns the specified image; "
       "Converter.convert / from_data are proved against the interface contract. Unbounded in nesting depth, container length, number of members/fields.",
-      note="Not under contract: NestedSequenceConverter / numpy arrays, DatetimeConverter, the scalar table rows themselves (bool has no row: see DESIGN.md findings).")
+      note="Not under contract: NestedSequenceConverter / numpy arrays, the scalar table rows themselves (bool has no row: see DESIGN.md findings). DatetimeConverter: stdlib .date()/.time()/combine/fromisoformat assumed.")
 claim('C02', "Kind gates (data_is_sequence / data_is_mapping), the scalar allowed-kinds gate and the dataclass layout gate are proved; every composite passes "
       "each element unchanged to the element converter (acceptance predicates quantify over acc(child, element)), so the embedding-context dimension collapses.")
 claim('C03', "For each converter class, try_convert (returns iff ACC) and collect_errors (None iff ACC) are proved against the SAME acceptance predicate; "
@@ -66,7 +66,7 @@ claim('C15', "PaneConverter: __init__ (input-name map), layout gate, struct deci
       note="positional bounds computed by _process are checked by the bounded class-hierarchy contract, not symbolically.")
 claim('C16', "Generated __eq__ / _pane_ord / __hash__ proved (class modulo generic parameters + compare-fields; lexicographic order consistent with equality; hash of exactly "
       "the hash-fields tuple); the hash rule table proved equal to the standard-library table (16 rows, exhaustive); from_dict_unchecked keeps the set-field record.",
-      note="Not under contract: __copy__/__deepcopy__/__replace__/__repr__/__setattr__; unsafe_hash cannot be passed at class creation (finding in DESIGN.md).")
+      note="_maybe_make_hash proved to apply the table entry; documented class options proved accepted (signature obligation). Not under contract: __copy__/__deepcopy__/__replace__/__repr__/__setattr__.")
 claim('C17', "Option inheritance proved (PaneOptions.replace, __init_subclass__: a passed option overrides, an absent one is inherited, incl. class handlers); field merge over the MRO, "
       "override in place, keyword-only reordering, signature order, type-variable substitution and enforcement are decided by BOUNDED run-time contracts over a pool of class hierarchies.",
       note="bounded part never counted as proved; typing.Generic bookkeeping is outside the engine (one open finding: explicit Generic[V] next to a generic base).")
